@@ -103,6 +103,10 @@ def group_value(ch, dur, val):
     p[k['GNV_OFF_CHANNEL']] = ch & 255; struct.pack_into('<I', p, k['GNV_OFF_DURATION'], dur & 0xFFFFFFFF)
     p[k['GNV_OFF_VALUE']:k['GNV_OFF_VALUE'] + len(val)] = bytes(val)
     return bytes(p)
+def chan_config(ch, func, cfgtype, config):
+    return struct.pack('<BiBH', ch & 255, func, cfgtype & 255, len(config)) + config
+def at_config(ch, actions):
+    return chan_config(ch, K()['FUNC_ACTIONTRIGGER'], 0, struct.pack('<I', actions & 0xFFFFFFFF))
 def reg_result(code=None):
     return struct.pack('<iBBB', K()['RESULTCODE_TRUE_'] if code is None else code, 30, 23, 1)
 
@@ -217,6 +221,15 @@ class C12(F.PropCheck):
             flashcfg = rng.choice([2, 3, 4]); blank = rng.choice([0, 0, 0, 0, 16, 2 | 16, 2, 4]); tags.append('boot:migrate%d' % flashcfg)
         # (the uninitialised tail of the 6->7 migration makes stored shutter settings unpredictable: boards without shutters there)
         b = gen_board(rng, no_rs=flashcfg >= 2)
+        aimed_at = flashcfg == 1 and blank == 0 and rng.random() < 0.08
+        if aimed_at:
+            # aimed scenario: a toggle-capable configuration button in advanced (ActionTrigger) mode
+            cap = rng.choice([k['CAP_TG1'] | k['CAP_TG2'] | k['CAP_TG5'] | k['CAP_TURN_ON'] | k['CAP_TURN_OFF'], k['CAP_SHORT_PRESS_MASK'] | k['CAP_HOLD'], 0xFFFF])
+            typ = rng.choice([k['TYPE_BISTABLE'], k['TYPE_BISTABLE'], k['TYPE_MOTION'], k['TYPE_MONOSTABLE']])
+            fl = k['FLAG_CFG_BTN'] | (k['FLAG_CFG_ON_TOGGLE'] if typ == k['TYPE_MONOSTABLE'] or rng.random() < 0.3 else 0) | rng.choice([0, k['FLAG_FACTORY_RESET']])
+            act = rng.choice([cap & (k['CAP_TG2'] | k['CAP_TG5'] | k['CAP_SP2'] | k['CAP_SP5']), cap & (k['CAP_TG2'] | k['CAP_SP3']), cap]) or cap
+            b.inputs[0] = dict(gpio=b.inputs[0]['gpio'], type=typ, flags=fl, relay=255, channel=4, atcap=cap, at=act)
+            tags.append('aimed:atcfg-freeze')
         boot32 = rng.choice([1, 1, 1, 0, 1000000, M32 - 1, M32 - 3000000, M32 - 6000000, M32 - 500000, 1 << 31, rng.getrandbits(32)])
         gpioin = 0
         for i in b.inputs:
@@ -230,8 +243,30 @@ class C12(F.PropCheck):
         if pro < 0.8: srv(k['CALL_REGISTER_RESULT'], reg_result())
         evs.append(('TIME', [rng.choice([500000, 500000, 400000, 399999, 100000, 0, 3000000])], b''))
         st = [0] * len(b.inputs)
+        cur_at = [max(0, x['at']) & x['atcap'] for x in b.inputs]
         def toggle(i):
             st[i] ^= 1; evs.append(('NOTIFY', [i, st[i]], b''))
+        def fair_tick(i):
+            # a released button is followed by its multi-click time-out tick (fair schedule)
+            evs.append(('TIME', [320000], b'')); evs.append(('TICK', [i], b''))
+        if aimed_at and pro < 0.9:
+            # 1..9 quick toggles, an ActionTrigger configuration (mostly unchanged) inside / around the multi-click window, then slow toggles
+            inp = b.inputs[0]; nq = rng.randrange(1, 10)
+            for j in range(nq):
+                toggle(0)
+                if j < nq - 1: evs.append(('TIME', [rng.choice([100000, 200000, 250000])], b''))
+            d = rng.choice([50000, 150000, 250000, 290000, 310000, 390000])
+            act = inp['atcap'] & cur_at[0]
+            m = act if rng.random() < 0.75 else rng.choice([0, inp['atcap'], act ^ k['CAP_TG1'], act ^ k['CAP_SP1']])
+            cur_at[0] = inp['atcap'] & m
+            sched = sorted([(d, 'at'), (320000, 'tick')]); off = 0
+            for (o_, what) in sched:
+                evs.append(('TIME', [o_ - off], b'')); off = o_
+                if what == 'tick': evs.append(('TICK', [0], b''))
+                else: srv(rng.choice([k['CALL_SET_CHANNEL_CONFIG'], k['CALL_GET_CHANNEL_CONFIG_RESULT']]), at_config(inp['channel'], m))
+            for j in range(rng.choice([1, 3, 9, 10, 12])):
+                evs.append(('TIME', [rng.choice([2500000, 5000000, 600000000, 3000000])], b'')); toggle(0)
+                evs.append(('TIME', [320000], b'')); evs.append(('TICK', [0], b''))
         n_act = rng.choice([1, 2, 3, 4, 6])
         def settle():
             # fair schedule: armed input timers do fire between two gestures (multi-click windows expire)
@@ -242,7 +277,7 @@ class C12(F.PropCheck):
             if na_ > 0: settle()
             if a < 0.3:      # hold
                 tags.append('hold')
-                if st[i]: toggle(i); evs.append(('TIME', [rng.choice([30000, 500000, 2500000])], b''))
+                if st[i]: toggle(i); fair_tick(i); evs.append(('TIME', [rng.choice([30000, 500000, 2500000])], b''))
                 toggle(i)
                 per = rng.choice([20000, 20000, 20000, 10000, 50000, 19999])
                 tot = rng.choice([5000000, 5000000, 4999999, 4980000, 5020000, 700000, 6000000, 2000000, M32 + 5000000 - 40000, M32 - 20000])
@@ -254,19 +289,26 @@ class C12(F.PropCheck):
                 if rng.random() < 0.3: evs.append(('APT', [], b''))
             elif a < 0.38:   # enter by hold, then factory-reset hold / leave by button
                 tags.append('cfgmode-then-button')
-                if st[i]: toggle(i); evs.append(('TIME', [400000], b''))
+                if st[i]: toggle(i); fair_tick(i); evs.append(('TIME', [400000], b''))
                 toggle(i); evs.append(('HOLD', [i, 20000, 250], b'')); toggle(i)
                 evs.append(('TIME', [rng.choice([100000, 1000000, 3100000])], b''))
                 if rng.random() < 0.5: evs.append(('APT', [], b''))
                 j = rng.randrange(len(b.inputs)) if rng.random() < 0.3 else i
-                if st[j]: toggle(j); evs.append(('TIME', [50000], b''))
+                if st[j]: toggle(j); fair_tick(j); evs.append(('TIME', [50000], b''))
                 toggle(j); evs.append(('HOLD', [j, 20000, rng.choice([250, 250, 249, 100])], b''))
                 if rng.random() < 0.5: toggle(j)
             elif a < 0.6:    # toggle train
                 tags.append('toggles')
                 n = rng.choice([9, 10, 10, 11, 12, 19, 20, 21, 22, 5])
-                gapk = rng.choice(['short', 'short', 'short', 'edge', 'mixed', 'long40', 'wrap31', 'wrap32', 'wrap32m'])
+                gapk = rng.choice(['short', 'short', 'short', 'edge', 'mixed', 'long40', 'wrap31', 'wrap32', 'wrap32m', 'slowtail', 'slowtail'])
                 tags.append('gap:' + gapk)
+                # ACTIONTRIGGER channel configurations (unchanged / changed ActiveActions, both call ids) dropped into the gesture,
+                # aimed around the multi-click window after a toggle
+                inp = b.inputs[i]; at_at = {}
+                if inp['atcap'] and inp['channel'] < k['CHANNEL_MAX'] and pro < 0.9 and rng.random() < 0.6:
+                    for _ in range(rng.choice([1, 1, 2])): at_at[rng.randrange(0, n)] = rng.choice([50000, 150000, 250000, 290000, 299999, 300000, 310000, 350000])
+                    tags.append('atcfg')
+                nfast = rng.randrange(1, 10)
                 for j in range(n):
                     if gapk == 'short': g = rng.choice([50000, 150000, 400000, 1000000, 1900000])
                     elif gapk == 'edge': g = rng.choice([1999999, 2000000, 1999980, 1000000, 999999])
@@ -274,12 +316,26 @@ class C12(F.PropCheck):
                     elif gapk == 'long40': g = 40 * 60 * 1000000 + rng.choice([0, 12345])
                     elif gapk == 'wrap31': g = (1 << 31) + rng.choice([-1000000, 0, 1000000])
                     elif gapk == 'wrap32': g = M32 + rng.choice([0, 1000000, 1999999, 2000000, -1000000, 500000])
+                    elif gapk == 'slowtail': g = rng.choice([100000, 200000, 250000]) if j < nfast else rng.choice([2500000, 4000000, 600000000, 9000000])
                     else: g = rng.choice([2, 3]) * M32 + rng.choice([1000, 1500000])
                     toggle(i)
-                    if rng.random() < 0.25 and g >= 20000: evs.append(('TIME', [20000], b'')); evs.append(('TICK', [i], b'')); g -= 20000
+                    if j in at_at and g <= at_at[j]: g = at_at[j] + rng.choice([1000, 100000, 3000000])
+                    sched = []          # (offset after the toggle, what)
+                    if rng.random() < 0.25 and g >= 20000: sched.append((20000, 'tick'))
                     # fair schedule: an armed input timer does fire within the multi-click window (the scheduler itself is C11's subject)
-                    if g >= 320000: evs.append(('TIME', [320000], b'')); evs.append(('TICK', [i], b'')); g -= 320000
-                    evs.append(('TIME', [g], b''))
+                    if g >= 320000: sched.append((320000, 'tick'))
+                    if j in at_at: sched.append((at_at[j], 'at'))
+                    off = 0
+                    for (o_, what) in sorted(sched):
+                        evs.append(('TIME', [o_ - off], b'')); off = o_
+                        if what == 'tick': evs.append(('TICK', [i], b''))
+                        else:
+                            act = inp['atcap'] & cur_at[i]
+                            m = act if rng.random() < 0.6 else rng.choice([0, inp['atcap'], k['CAP_TG1'], k['CAP_SP1'], k['CAP_TG2'] | k['CAP_TG5'], act ^ k['CAP_HOLD']])
+                            if rng.random() < 0.3: m |= 0x40000000          # bits outside the capabilities do not change the active set
+                            cur_at[i] = inp['atcap'] & m
+                            srv(rng.choice([k['CALL_SET_CHANNEL_CONFIG'], k['CALL_GET_CHANNEL_CONFIG_RESULT']]), at_config(inp['channel'], m))
+                    evs.append(('TIME', [g - off], b''))
                 if rng.random() < 0.3: evs.append(('HOLD', [i, 20000, 20], b''))
             elif a < 0.9:    # server traffic
                 for _ in range(rng.choice([1, 2, 3, 5])):
@@ -413,10 +469,15 @@ class C12(F.PropCheck):
                 gaps = [c[j + 1] - c[j] for j in idx]
                 if all(g < 2000000 + tol for g in gaps): return True, False
                 # known finding: a pause of (almost) a full period of the 32-bit microsecond counter inside the chain
-                # (the legacy handler measures from the previous change to "active", so the pause may span two gaps)
+                # known finding toggle-gap-u32-wrap, precisely: every link of the ten-change chain is "quick" in the 32-bit arithmetic
+                # of the legacy handler (time since the previous change to "active", modulo 2^32 us, below 2 s) although at least
+                # one of these times is a real pause of 2 s or more
+                links = []
                 for j in range(len(c) - NT + 1, len(c)):
-                    prev_act = [c[q] for q in range(j) if dirs[i][q] == 1]
-                    if (c[j] - c[j - 1] >= M32 - 2000000) or (prev_act and c[j] - prev_act[-1] >= M32 - 2000000): wrapped = True
+                    # (changes to "active" during the 400 ms silent start-up period are not time-stamped by the device)
+                    prev_act = [c[q] for q in range(j) if dirs[i][q] == 1 and c[q] >= 400000]
+                    links.append(c[j] - (prev_act[-1] if prev_act else -boot32))
+                if all((d % M32) < 2000000 + tol for d in links) and any(d >= 2000000 for d in links): wrapped = True
             return False, wrapped
         for n, e in enumerate(case.evs):
             kd, ints, data = e[0], e[1], bytes(e[2]); seg = segs.get(n, [])
